@@ -9,6 +9,7 @@ decoded, no Tab decoded, no help-shaped line submitted - measured by the full bu
 the observable behaviour (sink bytes per event, handler log, edited line and cursor
 after every event) must be identical; compared through per-run digests.
 """
+import atexit
 import itertools
 import os
 import subprocess
@@ -59,7 +60,8 @@ def run(drv, tier, seed):
         builds[tag] = binary
         drv.say(f"[C16] built feature set [{','.join(feats) or 'none'}] in {bt:.1f}s")
     # restore the default build last so that other checks find target/ warm
-    tmpjson = os.path.join(drv.SIM, "target", "out-C16.json")
+    tmpjson = os.path.join(drv.SIM, "target", f"out-C16-{os.getpid()}.json")
+    atexit.register(lambda p=tmpjson: os.path.exists(p) and os.remove(p))
     # every trace must be judged under all 16 C-properties' oracles in every build: any
     # failure of any property under a reduced build is a C16 violation, so ask for C16 and
     # for the behavioural properties in turn
